@@ -255,6 +255,12 @@ func features(o *Obs) map[string]string {
 		}
 	}
 	f["diff"] = viewDiff(o.Pre, o.Post)
+	if sc, ok := c["scenario"].(string); ok {
+		f["scenario"] = sc
+	}
+	if v, ok := o.Facts["torn"].(string); ok {
+		f["torn"] = v
+	}
 	if c.name() == "sequence" {
 		f["chain"] = fmt.Sprint(len(c.strs("ids")))
 	}
